@@ -985,6 +985,46 @@ def gen_headers(cat, rng, thorough):
         else: fr.raw(b'')
         cat.add_frame(C, 'checksum body=%s window' % body, fr, window=W1K, checksum=True)
 
+    # checksum x content length x block split: every length 0..72 and the multiples of 32 up to 160, as one raw block and as two
+    # blocks (raw+raw / raw+rle) cut at every position of the last 40 bytes - the checksum is fed block by block
+    lens = list(range(0, 73)) + [95, 96, 97, 127, 128, 129, 160]
+    for n in lens:
+        data = sample_text(rng, n)
+        fr = Frame(); fr.raw(data); cat.add_frame(C, 'cks len=%d one raw block' % n, fr, window=W1K, checksum=True)
+        if n >= 2 and (n % 32 == 0 or n in (31, 33, 63, 65)):
+            for cut in range(max(1, n - 40), n):
+                fr = Frame(); fr.raw(data[:cut]).raw(data[cut:]); cat.add_frame(C, 'cks len=%d raw %d + raw %d' % (n, cut, n - cut), fr, window=W1K, checksum=True)
+            fr = Frame(); fr.raw(data[:n - 32] if n > 32 else b'').rle(0x41, 32 if n >= 32 else n); cat.add_frame(C, 'cks len=%d raw + rle tail' % n, fr, window=W1K, checksum=True)
+
+def gen_rawlit_tail(cat, rng, thorough):
+    """last block = Raw literals + a sequences section of every small size (1..40 bytes), for each literals-header width and a
+    set of last-literal-run lengths around the 16/32-byte copy granularity: a decoder that references raw literals in place
+    must not read past the end of the input when the bytes following them are few"""
+    C = 'rawtail'
+    MLBYBITS = {0: 3, 1: 35, 2: 43, 3: 51, 4: 67, 5: 99, 7: 131, 8: 259, 9: 515, 11: 2051}
+    seen = set()
+    for lastll in (1, 15, 16, 17, 31, 32, 33, 48, 64, 65, 97):
+        for sf in (None, 2, 3):
+            for k in range(1, 17):
+                for b1 in (0, 1, 2, 3, 4, 5, 7, 8, 9, 11):
+                    for b2 in ((b1,) if not thorough else (b1, 0, 11)):
+                        seqs = [(33 if i < k - 1 else lastll, MLBYBITS[b1 if i % 2 == 0 else b2], 1 + 3 if i == 0 else 1) for i in range(k)]
+                        nl = sum(q[0] for q in seqs)
+                        if sf == 2 and nl >= 4096: continue
+                        lits = bytes((0x41 + (i * 7) % 53) for i in range(nl))
+                        fr = Frame()
+                        try:
+                            fr.compressed(lits, seqs, lit={'type': 'raw', 'size_format': sf})
+                        except AssertionError:
+                            continue
+                        payload = fr.blocks[-1][2]
+                        lh = 3 if sf == 3 else (1 if (sf is None and nl < 32) else 2)
+                        seqsec = len(payload) - lh - nl
+                        key = (lastll, lh, seqsec)
+                        if seqsec > 40 or key in seen: continue
+                        seen.add(key)
+                        cat.add_frame(C, 'lastll=%d lh=%d seqsec=%d k=%d' % (lastll, lh, seqsec, k), fr, window=(6, 0), checksum=False)
+
 # ---- B. block lists ---------------------------------------------------------
 def _add_block(fr, kind, rng, n=24):
     if kind == 'raw': fr.raw(sample_text(rng, n))
@@ -1976,7 +2016,7 @@ def gen_random_trees(cat, rng, thorough):
 # main
 # --------------------------------------------------------------------------
 GENERATORS = [gen_headers, gen_blocks, gen_literals, gen_seq_nbseq, gen_seq_modes, gen_seq_tables,
-              gen_seq_lengths, gen_seq_offsets, gen_skippable, gen_dict_frames, gen_pairs, gen_random_trees]
+              gen_seq_lengths, gen_seq_offsets, gen_skippable, gen_dict_frames, gen_pairs, gen_random_trees, gen_rawlit_tail]
 
 def build_catalogue(tier='quick'):
     cat = Catalogue()
